@@ -658,7 +658,7 @@ struct Rig {
   void preset_counter()
   {
     for (auto& x : s)
-      x.sys->visited_counter_ = cfg.start == 3 ? 0 : UINT_MAX - 1;
+      x.sys->visited_counter_ = cfg.start == 3 ? UINT_MAX : UINT_MAX - 1;
   }
   void fp(std::string& o) const
   {
@@ -881,7 +881,7 @@ static std::string attribute_c17(const std::vector<OpX>& hist)
   for (auto const& o : g_prefix)
     one(o);
   if (cfg.start >= 2) {
-    L.sys->visited_counter_ = cfg.start == 3 ? 0 : UINT_MAX - 1;
+    L.sys->visited_counter_ = cfg.start == 3 ? UINT_MAX : UINT_MAX - 1;
     stale                   = stale_now();
   }
   for (auto const& o : hist) {
